@@ -19,13 +19,14 @@ def applyStepToFiles (files : List FileJ) (stepIn : Json) : List FileJ :=
   | _ => files
 
 /-- C12 on the final directory: completeness, reflection of the current configuration, chains -/
-def convergenceFail (tz : Int) (files : List FileJ) (pems : List PemJ) (ranks : String → Nat) (keys : List KeyJ) : Option String := Id.run do
+def convergenceFail (tz : Int) (files : List FileJ) (pems : List PemJ) (ranks : String → Nat) (keys : List KeyJ) : Option (String × Json) := Id.run do
   let certOf (path : String) : Option X509.Certificate :=
     ((pems.find? (·.path = artifactFileName path)).bind (·.cert)).bind fun c =>
       ((hexToBytes c.der).bind X509.decodeDer).bind X509.decCertificate
   let nowOf (_ path : String) : Int := match certOf path with | some c => c.tbs.notBefore | none => 0
   let (s, _, _) := importState tz files pems ranks keys nowOf
   let mut fail : Option String := none
+  let mut ft : Json := Json.mkObj []
   for e in s.entities do
     if fail.isSome then break
     let pemPath := artifactFileName e.configPath
@@ -54,8 +55,13 @@ def convergenceFail (tz : Int) (files : List FileJ) (pems : List PemJ) (ranks : 
                 if eff.issuer.isEmpty then some c.tbs.subject.enc
                 else (((s.find eff.issuer).bind fun i => pems.find? (·.path = artifactFileName i.configPath)).bind (·.cert)).bind fun ic =>
                   (((hexToBytes ic.der).bind X509.decodeDer).bind X509.decCertificate).map (·.tbs.subject.enc)
+              -- a child file that is newer than its issuer's file is never looked at again by the mtime rule
+              let childNewer := match s.find eff.issuer with
+                | some i => decide (ranks pemPath > ranks (artifactFileName i.configPath))
+                | none => false
               if issuerSubjectEnc != some c.tbs.issuer.enc then
                 fail := some "C01: after the history the issuer DN of a certificate gopki produced is not its issuer's current subject DN"
+                ft := Json.mkObj [("childFileNewerThanIssuerFile", childNewer)]
               else if tbsModel != some c.tbs.raw.enc then
                 -- the known blind spot of the hash (C13): run-relative validity is not hashed
                 let tbsSameButUntil := (Gen.tbsTlv { g.tbs with notAfter := c.tbs.notAfter }).toOption.map Tlv.enc
@@ -78,10 +84,11 @@ def convergenceFail (tz : Int) (files : List FileJ) (pems : List PemJ) (ranks : 
                 let sigManip := eff.manipulations.signatureValue.isSome || eff.manipulations.signatureAlgorithm.isSome
                 if !sigManip && !(match issuerKeyId with | some k => (cj.verifiesUnder.getD []).contains k | none => false) then
                   fail := some "C01: after the history a certificate gopki produced does not verify against its issuer's current certificate"
+                  ft := Json.mkObj [("childFileNewerThanIssuerFile", childNewer)]
             | .error err, _ => fail := some s!"C12: model cannot regenerate {e.alias_}: {err}"
             | _, none => fail := some "C12: certificate not decodable"
         | _, _ => pure ()
-  return fail
+  return fail.map (·, ft)
 
 def opHist : OpFn := fun view inp out => do
   let tz ← inp.getObjValAs? Int "tz"
@@ -133,8 +140,8 @@ def opHist : OpFn := fun view inp out => do
           if !v.corr then fails := fails ++ [("C12: the default run after the history did not succeed: " ++ v.clause, Json.mkObj [], v.detail)]
         else
           match convergenceFail tz files postPems (ranksOf so "ranks") keys with
-          | some c =>
-            let ft := if c.startsWith "C12: a certificate gopki produced keeps an outdated notAfter" then Json.mkObj [("validityNotStatic", true)] else Json.mkObj []
+          | some (c, ft0) =>
+            let ft := if c.startsWith "C12: a certificate gopki produced keeps an outdated notAfter" then Json.mkObj [("validityNotStatic", true)] else ft0
             fails := fails ++ [(c, ft, Json.null)]
           | none => pure ()
     else prevRun := none
